@@ -162,11 +162,11 @@ CLAIMED.update({
    note=FAT_NOTE + 'The skeleton is an over-approximation resolved by method name (trusted translator; it refuses lock sections inside loops for the single-section theorem); serial equivalence then follows from the exclusion theorems of C13, informally composed; real pre-emption is observed only by the thread tier (PARTIAL). Found and fixed: FatFile.write padded past EOF in a separate exclusive section.',
    design='§7 C14'),
  'C15': dict(
-   technique='Coq proof of the dirty-bracket discipline over the regenerated skeleton + every intermediate image of the implementation checked by the extracted Coq structural reader',
-   text='Theorem (partial): every store made by an API operation lies inside a mark_dirty bracket (flag set before, restored after, also on exceptions) except the access-time update and the '
-        'stores of the flag itself; appending a directory entry stores its records from the highest index down, so at every crash point the records before the old end and the decoded bystander entries are unchanged. Oracle on EVERY intermediate image (image diffed at each executed line, C04 histories incl. handle sessions, C10 out-of-space cases, creation in a full root that is compacted in place, by every creating mode): inconsistent => dirty flag set (FAT16/32); '
+   technique='Coq proof of the dirty-bracket discipline over the regenerated skeleton + Coq proof that bystanders are intact at EVERY prefix of the stores of every path operation (micro-step decomposition of the record-level volume model) + every intermediate image of the implementation checked by the extracted Coq structural reader',
+   text='Theorems: every store made by an API operation lies inside a mark_dirty bracket (flag set before, restored after, also on exceptions) except the access-time update and the '
+        'stores of the flag itself; appending a directory entry stores its records from the highest index down, so at every crash point the records before the old end and the decoded bystander entries are unchanged; every path operation (unlink, rmdir, mkdir, rename, file operations incl. truncate / write / close, directory growth and compaction) is decomposed into its elementary stores in the order the code performs them (proved to compose to the operation of the volume model), and AT EVERY PREFIX every entry that is not a target of the operation is found by long name and by alias as the identical entry with the same chain, none of whose clusters was re-linked, freed or zeroed; what is in flux belongs to the target (free clusters, the target s chain, the receiving directory s last cluster); during in-place compaction every entry of that directory stays listed with alias, size and first cluster (possibly twice or under its 8.3 name only). Oracle on EVERY intermediate image (image diffed at each executed line, C04 histories incl. handle sessions, C10 out-of-space cases, creation in a full root that is compacted in place, by every creating mode): inconsistent => dirty flag set (FAT16/32); '
         'flag restored and volume consistent at the end; every bystander file found with unchanged content at every crash point on all FAT types.',
-   note=FAT_NOTE + 'PARTIAL: that bracketed stores leave bystanders intact is oracle-level, not a theorem. Two known findings are recorded (known_findings.json): flag restored in the primary FAT copy first; '
+   note=FAT_NOTE + 'PARTIAL: the bystander theorems are at record level (FAT values, decoded directory entries); cluster DATA is covered by the frame theorems of the byte-level layers and the link between record-level states and image bytes is the correspondence (traced intermediate images read back through the specification reader must be a sub-sequence of the model s micro-step states). Two known findings are recorded (known_findings.json): flag restored in the primary FAT copy first; '
         'open empty file keeps its cluster until close by design. Torn stores within one source line are treated as atomic.',
    design='§7 C15'),
  'C17': dict(
